@@ -89,6 +89,44 @@ pub fn run(kind: &str, path: &str) -> i32 {
       println!("{}", serde_json::Value::Array(out));
       0
     }
+    // {"rule": name, "texts": [...]} -> does the pest rule match the WHOLE text?
+    "parse_rule" => {
+      use cddl::pest_parser::Rule;
+      use pest::Parser;
+      let text = std::fs::read_to_string(path).expect("read args");
+      let v: serde_json::Value = serde_json::from_str(&text).expect("json");
+      let which = match v.get("rule").and_then(|r| r.as_str()).unwrap_or("") {
+        "uint_value" => Rule::uint_value,
+        "int_value" => Rule::int_value,
+        "float_value" => Rule::float_value,
+        "hexfloat" => Rule::hexfloat,
+        "number" => Rule::number,
+        "text_value" => Rule::text_value,
+        "bytes_value" => Rule::bytes_value,
+        "id" => Rule::id,
+        "occur" => Rule::occur,
+        other => {
+          eprintln!("api: rule {other} not mapped");
+          return 4;
+        }
+      };
+      let mut out = Vec::new();
+      for t in v.get("texts").and_then(|t| t.as_array()).expect("texts") {
+        let b: Vec<u8> = t.as_array().unwrap().iter().map(|x| x.as_u64().unwrap() as u8).collect();
+        match std::str::from_utf8(&b) {
+          Ok(s) => {
+            let whole = match cddl::pest_parser::CddlParser::parse(which, s) {
+              Ok(mut pairs) => pairs.next().map(|p| p.as_span().end() == s.len()).unwrap_or(false),
+              Err(_) => false,
+            };
+            out.push(serde_json::json!({"utf8": true, "pest": whole, "crate": whole}));
+          }
+          Err(_) => out.push(serde_json::json!({"utf8": false})),
+        }
+      }
+      println!("{}", serde_json::Value::Array(out));
+      0
+    }
     _ => {
       eprintln!("api: unknown kind {kind}");
       4
